@@ -129,6 +129,15 @@ def build(scn):
     key = 'kIdp1' if rtype == 'logout_sp' else 'kSp'
     sig = sb.signature_template('req1', 'sha256') if scn['sig'] != 'none' else ''
     doc = request_xml(rtype, 'req1', dest, ii, sig)
+    if mut == 'schema_child':
+        import re
+        before = doc
+        if rtype == 'authn':        # an IDPList must hold at least one IDPEntry
+            doc = doc.replace('</samlp:AuthnRequest>', '<samlp:Scoping><samlp:IDPList/></samlp:Scoping></samlp:AuthnRequest>')
+        else:                       # an AssertionIDRequest must hold at least one AssertionIDRef
+            doc = re.sub(r'<saml:AssertionIDRef>.*?</saml:AssertionIDRef>', '', doc)
+        if doc == before:
+            raise fw.Machinery('schema_child: nothing to remove in %s' % rtype)
     if scn['sig'] != 'none':
         doc = sb.sign(doc, sb.NS_SAMLP, TAG[rtype], 'req1', key)
         if scn['sig'] == 'invalid':
